@@ -19,6 +19,8 @@ SHAPES = {
     # a long and a short branch joined by a merge commit, then a late commit on the short branch: the walk back
     # from the merge commit passes three generations before it meets the late commit's parent again
     "long-short-merge-late-fork": "-|0|1|2|3|0|4,5|5",
+    # double diamond: two blocks of the same height, each reachable through two paths
+    "double-diamond": "-|0|0|1,2|1,2|3,4",
 }
 
 
@@ -27,20 +29,20 @@ def merge_jobs(tier, prop="C02"):
     L = 3
     for kind, kn, n in ((1, "counter", 4), (0, "register", 3 if tier == "quick" else 4)):
         js.append({"id": f"deliver.{kn}.n{n}", "func": "VerifH_C02_Deliver",
-                   "conf": {"n": n, "kind": kind, "del": -1, "deliveries": L, "hasfield": 1, "class": 2, "dag": "", "orders": "all", "shortid": 0},
+                   "conf": {"n": n, "kind": kind, "del": -1, "deliveries": L, "hasfield": 1, "class": 2, "dag": "", "orders": "all", "shortid": 0, "for": "C02", "fieldmask": 0},
                    "_obligation": "O1-O3", "_covers": ["delivered"], "unwind": 40, "_maporder_replay": True, "reset_mode": True})
     n = 3 if tier == "quick" else 4
     js.append({"id": f"deliver.counter.n{n}.delete-last", "func": "VerifH_C02_Deliver",
-               "conf": {"n": n, "kind": 1, "del": n - 1, "deliveries": L, "hasfield": 1, "class": 2, "dag": "", "orders": "all", "shortid": 0},
+               "conf": {"n": n, "kind": 1, "del": n - 1, "deliveries": L, "hasfield": 1, "class": 2, "dag": "", "orders": "all", "shortid": 0, "for": "C02", "fieldmask": 0},
                "_obligation": "O1-O3", "_covers": ["delivered"], "unwind": 40, "_maporder_replay": True, "reset_mode": True})
     for sn, dag in SHAPES.items():
         for kind, kn in ((1, "counter"),) if tier == "quick" else ((1, "counter"), (0, "register")):
             js.append({"id": f"deliver.{kn}.{sn}", "func": "VerifH_C02_Deliver",
                        "conf": {"n": dag.count("|") + 1, "kind": kind, "del": -1,
                                 "deliveries": (2 if dag.count("|") >= 7 else 3) if tier == "quick" else (3 if dag.count("|") >= 7 else 4), "hasfield": 1, "class": 2,
-                                "dag": dag, "orders": "two", "shortid": 0},
+                                "dag": dag, "orders": "two", "shortid": 0, "for": "C02", "fieldmask": 0},
                        "_obligation": "O1-O3", "_covers": ["delivered"], "unwind": 60, "reset_mode": True})
-    js.append({"id": "twin", "func": "VerifH_C02_Reach", "conf": {"dag": "", "orders": "all", "shortid": 0}, "_obligation": "vacuity", "_expect": "twin", "_covers": ["end"]})
+    js.append({"id": "twin", "func": "VerifH_C02_Reach", "conf": {"dag": "", "orders": "all", "shortid": 0, "for": "C02", "fieldmask": 0}, "_obligation": "vacuity", "_expect": "twin", "_covers": ["end"]})
     return js
 
 
